@@ -37,9 +37,9 @@ def cases(tier, seed):
         special = min(min(h - l for l, h in zip(lo, hi)) for lv in d["levels"] for lo, hi in lv) == 0 or d["domain"][0] > 1000
         if tier == "quick" and special and (c.get("devlevel") is not None or len(d["fields"]) != 3):
             continue        # boxes one cell thick / six-digit indices: default layouts only in the quick tier
-        if d["payload"] != "coded" and tier == "quick":
+        if d["payload"] != "coded" and tier == "quick" and not c.get("deep"):
             continue
-        if len(d["fields"]) not in ((2, 3) if tier == "quick" else (1, 2, 3, 4)):
+        if len(d["fields"]) not in ((2, 3) if tier == "quick" else (1, 2, 3, 4)) and not c.get("deep"):
             continue
         lay = d["layout"]
         dev = c.get("devlevel")
